@@ -18,12 +18,12 @@ TESTNAME=$(grep -o 'func Test[A-Za-z0-9_]*' $DEMO | head -1 | sed 's/func //')
 # hide other seeded demos of this property while running
 for f in $(find . -name 'zz_seeded_*_test.go' -not -path './.git/*'); do [ "$(basename $f)" != "$DEMON" ] && mv $f $f.hidden; done
 echo "== demo on pristine" >> $LOG
-( cd $DEMODIR && go test -vet=off -count=1 -run "^${TESTNAME}\$" . ) >> $LOG 2>&1; P0=$?
+( cd $DEMODIR && go test -vet=off -count=1 ${TAGS:+-tags $TAGS} -run "^${TESTNAME}\$" . ) >> $LOG 2>&1; P0=$?
 git apply $OUT/patch.diff >> $LOG 2>&1 || { echo "$ID/$L: PATCH DOES NOT APPLY"; exit 1; }
 echo "== build" >> $LOG
 go build ./... >> $LOG 2>&1; B=$?
 echo "== demo with patch" >> $LOG
-( cd $DEMODIR && go test -vet=off -count=1 -run "^${TESTNAME}\$" . ) >> $LOG 2>&1; P1=$?
+( cd $DEMODIR && go test -vet=off -count=1 ${TAGS:+-tags $TAGS} -run "^${TESTNAME}\$" . ) >> $LOG 2>&1; P1=$?
 mv $DEMODIR/$DEMON /tmp/seeded-out/$ID/$L/.demo.tmp
 E=0
 for p in $PKGS; do echo "== existing tests ./$p" >> $LOG; ( cd $p && timeout 3000 go test -vet=off -count=1 -timeout 45m . ) >> $LOG 2>&1 || E=1; done
